@@ -49,6 +49,8 @@ Section Pairing.
     e_cur : w_kpc s = KLines ->
             w_kcur s = list_sum (firstn (length (w_emitted s)) recs0) /\
             exists rn, nth_error recs0 (length (w_emitted s)) = Some rn /\ w_klines s + w_kneed s = w_kcur s + rn;
+    e_eofrecs : match w_fpc s with FEofFlush | FEofClose | FEofPoison | FDone => w_recs s = [] | _ => True end;
+    e_kdone : (w_kpc s = KPeek \/ w_kpc s = KDone) -> w_queue s = [] /\ feof s = true;
   }.
 
   Lemma einv_init : EInv (w_init recs0).
@@ -56,7 +58,16 @@ Section Pairing.
     constructor; simpl; auto.
     - exists [], []. simpl. auto.
     - intros H; discriminate.
+    - intros [H|H]; discriminate.
   Qed.
+
+  Ltac enew Eeof Ekd :=
+    try solve [exact I];
+    try solve [simpl; rewrite ?Eeof; auto];
+    try solve [let X := fresh in intros [X|X]; discriminate];
+    try solve [let X := fresh in let Q := fresh in let F := fresh in
+               intros X; destruct (Ekd X) as [Q F]; unfold feof in *; simpl in *;
+               first [discriminate | (rewrite ?Q; split; auto; destruct (p_poison_first pr); auto; discriminate)]].
 
   Ltac esame Eq :=
     let ns := fresh "ns" in let tq := fresh "tq" in let H1 := fresh in let H2 := fresh in let H3 := fresh in
@@ -64,7 +75,7 @@ Section Pairing.
 
   Lemma einv_feed s s' : EInv s -> step_feed pr ilen s = Some s' -> EInv s'.
   Proof.
-    intros [Eem Eq El Ec] H. unfold step_feed in H.
+    intros [Eem Eq El Ec Eeof Ekd] H. unfold step_feed in H.
     destruct (negb (feeder_ready s)); [discriminate|].
     destruct Eq as (ns & tailq & Hq & Htail & Hsk). unfold kcurrent, radj, feof in *.
     destruct (w_fpc s) eqn:Epc.
@@ -72,40 +83,42 @@ Section Pairing.
       assert (Ht0 : tailq = []) by (destruct Htail as [|[_ X]]; [assumption|discriminate]). subst tailq.
       rewrite app_nil_r in Hq.
       destruct (w_recs s) as [|n rest] eqn:Erecs.
-      + destruct (p_poison_first pr) eqn:Epf; inversion H; subst s'; clear H; unfold set_fpc; constructor; simpl; auto.
+      + destruct (p_poison_first pr) eqn:Epf; inversion H; subst s'; clear H; unfold set_fpc; constructor; simpl; auto; rewrite ?Epc, ?Erecs in *; enew Eeof Ekd.
         * exists ns, [None]. rewrite Hq. unfold kcurrent, radj, feof; simpl. rewrite ?Erecs, ?Epf in *. repeat split; auto.
         * exists ns, []. rewrite Hq, app_nil_r. unfold kcurrent, radj, feof; simpl. rewrite ?Erecs in *. repeat split; auto.
-      + destruct (p_order pr); inversion H; subst s'; clear H; constructor; simpl; auto.
+      + destruct (p_order pr); inversion H; subst s'; clear H; constructor; simpl; auto; rewrite ?Epc, ?Erecs in *; enew Eeof Ekd.
         * exists (ns ++ [n]), []. rewrite Hq, app_nil_r, map_app. unfold kcurrent, radj, feof; simpl.
           split; [reflexivity|]. split; [auto|]. unfold kcurrent in Hsk. rewrite Hsk, <- app_assoc. reflexivity.
         * exists ns, []. rewrite Hq, app_nil_r. unfold kcurrent, radj, feof; simpl. rewrite ?Erecs in *. repeat split; auto.
     - (* FSendFirst *)
       destruct (Nat.eqb (w_sent s) (I ilen (w_sentl s))); [|discriminate]. inversion H; subst s'; clear H. unfold set_fpc.
-      constructor; simpl; auto. exists ns, tailq. unfold kcurrent, radj, feof, set_fpc in *; simpl.
+      constructor; simpl; auto; rewrite ?Epc in *; enew Eeof Ekd. exists ns, tailq. unfold kcurrent, radj, feof, set_fpc in *; simpl.
       split; [exact Hq|]. split; [|exact Hsk]. destruct Htail as [|[_ X]]; [auto|discriminate].
     - (* FEnqSecond *)
       assert (Ht0 : tailq = []) by (destruct Htail as [|[_ X]]; [assumption|discriminate]). subst tailq.
       rewrite app_nil_r in Hq.
       destruct (w_recs s) as [|n rest] eqn:Erecs; [discriminate|]. inversion H; subst s'; clear H.
-      constructor; simpl; auto.
+      constructor; simpl; auto; rewrite ?Epc in *; enew Eeof Ekd.
       exists (ns ++ [n]), []. rewrite Hq, app_nil_r, map_app. unfold kcurrent, radj, feof; simpl.
       split; [reflexivity|]. split; [auto|]. unfold kcurrent in Hsk. rewrite Hsk, <- app_assoc. reflexivity.
     - (* FSendSecond *)
       destruct (Nat.eqb (w_sent s) (I ilen (w_sentl s))); [|discriminate]. inversion H; subst s'; clear H. unfold set_fpc.
-      constructor; simpl; auto. exists ns, tailq. unfold kcurrent, radj, feof in *; simpl.
+      constructor; simpl; auto; rewrite ?Epc in *; enew Eeof Ekd. exists ns, tailq. unfold kcurrent, radj, feof in *; simpl.
       split; [exact Hq|]. split; [|exact Hsk]. destruct Htail as [|[_ X]]; [auto|discriminate].
     - (* FEofFlush *)
-      inversion H; subst s'; clear H. constructor; simpl; auto.
+      inversion H; subst s'; clear H. constructor; simpl; auto; rewrite ?Epc in *; enew Eeof Ekd.
       exists ns, tailq. unfold kcurrent, radj, feof in *; simpl. repeat split; auto.
     - (* FEofClose *)
-      inversion H; subst s'; clear H. constructor; simpl; auto.
-      exists ns, tailq. unfold kcurrent, radj, feof in *; simpl.
-      destruct (p_poison_first pr) eqn:Epf; (split; [exact Hq|]; split; [|exact Hsk]);
-        destruct Htail as [|[Y X]]; auto; discriminate.
+      inversion H; subst s'; clear H.
+      destruct (p_poison_first pr) eqn:Epf; constructor; simpl; auto; rewrite ?Epc, ?Epf in *; enew Eeof Ekd.
+      + exists ns, tailq. unfold kcurrent, radj, feof in *; simpl. rewrite ?Epf in *.
+        split; [exact Hq|]. split; [|exact Hsk]. destruct Htail as [|[Y X]]; auto.
+      + exists ns, tailq. unfold kcurrent, radj, feof in *; simpl. rewrite ?Epf in *.
+        split; [exact Hq|]. split; [|exact Hsk]. destruct Htail as [|[Y X]]; auto; discriminate.
     - (* FEofPoison *)
       assert (Ht0 : tailq = []) by (destruct Htail as [|[_ X]]; [assumption|discriminate]). subst tailq.
       rewrite app_nil_r in Hq.
-      inversion H; subst s'; clear H. constructor; simpl; auto.
+      inversion H; subst s'; clear H. constructor; simpl; auto; rewrite ?Epc in *; enew Eeof Ekd.
       exists ns, [None]. rewrite Hq. unfold kcurrent, radj, feof; simpl. rewrite ?Erecs in *. repeat split; auto.
     - discriminate.
   Qed.
@@ -115,7 +128,7 @@ Section Pairing.
     w_recs s' = w_recs s -> w_klines s' = w_klines s -> w_kneed s' = w_kneed s -> w_kcur s' = w_kcur s ->
     EInv s -> EInv s'.
   Proof.
-    intros H1 H2 H3 H4 H5 H6 H7 H8 [Eem Eq El Ec].
+    intros H1 H2 H3 H4 H5 H6 H7 H8 [Eem Eq El Ec Eeof Ekd].
     constructor; unfold kcurrent, radj, feof in *; rewrite ?H1, ?H2, ?H3, ?H4, ?H5, ?H6, ?H7, ?H8; auto.
   Qed.
 
@@ -128,7 +141,7 @@ Section Pairing.
 
   Lemma einv_collect s m s' : EInv s -> step_collect pr alen s m = Some s' -> EInv s' \/ EErr s'.
   Proof.
-    intros [Eem Eq El Ec] H. unfold step_collect in H.
+    intros [Eem Eq El Ec Eeof Ekd] H. unfold step_collect in H.
     destruct Eq as (ns & tailq & Hq & Htail & Hsk). unfold kcurrent, radj, feof in *.
     destruct (w_kpc s) eqn:Ek; try discriminate.
     - (* KDeq *)
@@ -140,7 +153,7 @@ Section Pairing.
         * destruct Htail as [->|[-> _]]; discriminate.
         * injection Hq as Hn Hq'. subst n'.
           simpl in Hsk. destruct (firstn_S_skipn _ _ _ _ Hsk) as [Hf Hs].
-          constructor; simpl; unfold kcurrent, radj, feof; simpl; auto; try discriminate.
+          constructor; simpl; unfold kcurrent, radj, feof; simpl; auto; try discriminate; try exact Eeof; try solve [intros [X|X]; discriminate].
           -- exists ns', tailq. split; [exact Hq'|]. split; [exact Htail|].
              replace (length (w_emitted s) + 1) with (S (length (w_emitted s))) by lia. exact Hs.
           -- intros _. split; [exact Hl|]. exists n. split; [|lia].
@@ -171,17 +184,17 @@ Section Pairing.
         assert (Hsk' : skipn (S (length (w_emitted s)) + 0) recs0 =
                        ns ++ match w_fpc s with FSendSecond => tl (w_recs s) | _ => w_recs s end).
         { rewrite Nat.add_0_r. replace (S (length (w_emitted s))) with (length (w_emitted s) + 1) by lia. exact Hsk. }
-        constructor; simpl; unfold kcurrent, radj, feof; simpl; auto; try discriminate.
+        constructor; simpl; unfold kcurrent, radj, feof; simpl; auto; try discriminate; try exact Eeof; try solve [intros [X|X]; discriminate].
         exists ns, tailq. split; [exact Hq|]. split; [exact Htail|exact Hsk'].
       + destruct (A alen (S (w_klines s)) <=? w_kread s).
         * left. inversion H; subst s'; clear H.
-          constructor; simpl; unfold kcurrent, radj, feof; simpl; auto; try discriminate.
+          constructor; simpl; unfold kcurrent, radj, feof; simpl; auto; try discriminate; try exact Eeof; try solve [intros [X|X]; discriminate].
           all: try solve [exists ns, tailq; auto].
           all: try solve [intros X; exfalso; apply X; reflexivity].
           all: try solve [intros _; split; [exact Hcur|]; exists rn; split; [exact Hnth|lia]].
         * destruct ((1 <=? m) && (w_kread s + m <=? w_cwritten s)).
           -- left. inversion H; subst s'; clear H.
-             constructor; simpl; unfold kcurrent, radj, feof; simpl; auto; try discriminate.
+             constructor; simpl; unfold kcurrent, radj, feof; simpl; auto; try discriminate; try exact Eeof; try solve [intros [X|X]; discriminate].
              all: try solve [exists ns, tailq; auto].
              all: try solve [intros X; exfalso; apply X; reflexivity].
              all: try solve [intros _; split; [exact Hcur|]; exists rn; split; [exact Hnth|lia]].
@@ -192,7 +205,7 @@ Section Pairing.
       destruct (w_kread s <? w_cwritten s).
       + right. inversion H; subst s'; clear H. split; [reflexivity|exact Eem].
       + destruct (w_cexit s); [|discriminate]. left. inversion H; subst s'; clear H.
-        constructor; simpl; unfold kcurrent, radj, feof; simpl; auto; try discriminate.
+        constructor; simpl; unfold kcurrent, radj, feof; simpl; auto; try discriminate; try exact Eeof; try solve [intros [X|X]; discriminate].
         exists ns, tailq. auto.
   Qed.
 
@@ -267,7 +280,27 @@ Section Pairing.
     intros Hr.
     assert (G : EAll s).
     { revert s Hr. apply invariant_reachable; [left; exact einv_init|]. intros s0 l s1. apply eall_step. }
-    destruct G as [[Eem _ _ _]|[_ Eem]]; exact Eem.
+    destruct G as [[Eem _ _ _ _ _]|[_ Eem]]; exact Eem.
   Qed.
 
+
+  (* a collector that has finished normally has emitted ALL records, in order, each from its own lines *)
+  Theorem emitted_complete s : reachable wstep (w_init recs0) s -> w_kpc s = KDone ->
+    rev (w_emitted s) = pairs 0 recs0.
+  Proof.
+    intros Hr Hk.
+    assert (G : EAll s).
+    { clear Hk. revert s Hr. apply invariant_reachable; [left; exact einv_init|]. intros s0 l s1. apply eall_step. }
+    destruct G as [[Eem Eq El Ec Eeof Ekd]|[Hk' _]]; [|congruence].
+    destruct (Ekd (or_intror Hk)) as [Hq0 Hf].
+    destruct Eq as (ns & tailq & Hq & Htail & Hsk). unfold kcurrent in Hsk. rewrite Hk, Nat.add_0_r in Hsk.
+    rewrite Hq0 in Hq. symmetry in Hq. apply app_eq_nil in Hq. destruct Hq as [Hns _].
+    apply map_eq_nil in Hns. subst ns. simpl in Hsk.
+    assert (Hr0 : radj s = []).
+    { unfold radj, feof in *. destruct (w_fpc s); try discriminate; exact Eeof. }
+    rewrite Hr0 in Hsk.
+    assert (Hall : firstn (length (w_emitted s)) recs0 = recs0).
+    { rewrite <- (firstn_skipn (length (w_emitted s)) recs0) at 2. rewrite Hsk, app_nil_r. reflexivity. }
+    rewrite Eem, Hall. reflexivity.
+  Qed.
 End Pairing.
